@@ -569,6 +569,14 @@ void Parser::ParserImpl::loadModel(const ModelPtr &model, const std::string &inp
             }
         } else if (mParsing1XVersion && childNode->isCellml1XElement("group")) {
             if (isEncapsulationRelationship(childNode)) {
+                // The identifier of an encapsulation group is the identifier of the encapsulation.
+                XmlAttributePtr childAttribute = childNode->firstAttribute();
+                while (childAttribute) {
+                    if (isIdAttribute(childAttribute, true)) {
+                        model->setEncapsulationId(childAttribute->value());
+                    }
+                    childAttribute = childAttribute->next();
+                }
                 encapsulationNodes.push_back(childNode);
             }
         } else if (mParsing1XVersion && childNode->isCellml1XElement("connection")) {
@@ -1055,6 +1063,14 @@ void Parser::ParserImpl::loadConnection(const ModelPtr &model, const XmlNodePtr 
             issue->mPimpl->mItem->mPimpl->setModel(model);
             addIssue(issue);
             return;
+        }
+        // The identifier may sit on the connection element itself, an identifier on map_components takes precedence.
+        XmlAttributePtr connectionAttribute = node->firstAttribute();
+        while (connectionAttribute != nullptr) {
+            if (isIdAttribute(connectionAttribute, true)) {
+                connectionId = connectionAttribute->value();
+            }
+            connectionAttribute = connectionAttribute->next();
         }
     } else {
         componentNode = node;
